@@ -1,5 +1,5 @@
 From Coq Require Extraction ExtrOcamlBasic.
-From PV Require Import Lib.Bytes Lib.Utf8 Model.Getopt Gen.Options Spec.OptionsDoc.
+From PV Require Import Lib.Bytes Lib.Utf8 Model.Getopt Gen.Options Spec.OptionsDoc Model.Escape Model.Logger.
 Open Scope N_scope.
 
 (* A second table for the correspondence with the exported getopt package: it has
@@ -20,4 +20,5 @@ Definition test_table : table :=
     mk_odecl 8364 [101; 117; 114; 111] KList false [] [] [116; 57];
     mk_odecl 120 [105; 110; 99; 108; 117; 100; 101; 45; 97; 108; 108] KGroup false [] [mk_gflag [97] true false [116; 49; 48; 46; 97]; mk_gflag [98] false true [116; 49; 48; 46; 98]] [116; 49; 48] ].
 
-Extraction "C08_model.ml" Z.of_N parse parse_from init option_table documented_options doc_view test_table.
+Extraction "C08_model.ml" Z.of_N parse parse_from init option_table documented_options doc_view test_table
+  escape_printable log_run log_step new_logger exit_status.
